@@ -494,6 +494,13 @@ func init() {
 		return []Value{App("str.hasprefix", BoolSort, s, p)}
 	}
 	models["(github.com/cometbft/cometbft/libs/bytes.HexBytes).Bytes"] = func(e *Exec, a []Value) []Value { return []Value{a[0]} }
+	models["strings.ToLower"] = func(e *Exec, a []Value) []Value {
+		s := asTerm(e, a[0])
+		if s.IsStrLit() {
+			return []Value{StrLit(strings.ToLower(s.Str))}
+		}
+		return []Value{App("str.lower", StrSort, s)}
+	}
 	models["strings.TrimSpace"] = func(e *Exec, a []Value) []Value {
 		s := asTerm(e, a[0])
 		if s.IsStrLit() {
@@ -502,7 +509,20 @@ func init() {
 		return []Value{App("str.trim", StrSort, s)}
 	}
 	models["time.Now"] = func(e *Exec, a []Value) []Value {
+		e.extra["clock.now"] = e.extra["clock.calls"]
 		return []Value{e.symTimeOracle("oracle.time.Now")}
+	}
+	// the wall clock is a runtime oracle: the time elapsed since an earlier reading is an arbitrary non-negative
+	// duration, independent in each execution of a self-composition (the symbols are named per execution so that
+	// a replay can make that much time pass). Bound: the modelled clock advances across calls into other
+	// components (stub message handlers) only; with no such call since the last time.Now less than 1 ms passes.
+	models["time.Since"] = func(e *Exec, a []Value) []Value {
+		d := e.fresh(fmt.Sprintf("oracle.time.Since.e%d", e.envMode), IntSort)
+		e.assertPC(And(IGe(d, IntI(0)), ILt(d, IntI(1<<62))))
+		if e.extra["clock.now"] == e.extra["clock.calls"] {
+			e.assertPC(ILt(d, IntI(1000000)))
+		}
+		return []Value{d}
 	}
 	// telemetry is unobservable
 	models["github.com/cosmos/cosmos-sdk/telemetry.ModuleMeasureSince"] = func(e *Exec, a []Value) []Value { return nil }
